@@ -314,7 +314,9 @@ def find_blocked_reactions(
             solution.fluxes.abs() < zero_cutoff
         ].index.tolist()
         # Run FVA to find reactions where both the minimal and maximal flux
-        # are zero (below the cut off).
+        # are zero (below the cut off). Whether a reaction is blocked does not
+        # depend on the objective.
+        model.objective = Zero
         flux_span = flux_variability_analysis(
             model,
             fraction_of_optimum=0.0,
